@@ -10,5 +10,5 @@ git -C $WT apply $D/patch.diff 2>/dev/null || git -C $WT apply --3way $D/patch.d
 ( cd $WT && PYTHONPATH=$WT /venv/bin/python $D/demo.py >/dev/null 2>&1 ); mutd=$?
 echo "demo: HEAD exit=$base  patched exit=$mutd"
 if [ "$T" = "--tests" ]; then ( cd /verif && .venv/bin/python vf/baseline.py $WT ); fi
-( cd /verif && VERIF_REPO=$WT ./check $P --tier quick 2>&1 | grep -v "^UNDECIDED" | cut -c1-260 | head -8 ); echo "check exit=${PIPESTATUS[0]}"
+( cd /verif && VERIF_REPO=$WT ./check $P --tier quick > /tmp/sc_$$.out 2>&1; echo "check exit=$?" >> /tmp/sc_$$.out ); grep -v "^UNDECIDED" /tmp/sc_$$.out | cut -c1-260 | head -6; tail -1 /tmp/sc_$$.out; rm -f /tmp/sc_$$.out
 git -C /repo worktree remove --force $WT
